@@ -124,6 +124,10 @@ def run(shard, ctx):
                 st, v = ctx.call(P.to_chords, bad, kname)
                 ctx.check("diatonic: an unrecognised numeral yields the empty answer", st == "ok" and v == [],
                           {"key": kname, "numeral": bad}, [], repr(v), mechanism="unrecognised-numeral")
+                for lst in ([bad], ["I", bad], [bad, "V"], ["I", "IV", bad, "V"], ["ii7", "V7", bad]):
+                    st, v = ctx.call(P.to_chords, list(lst), kname)
+                    ctx.check("diatonic: an unrecognised numeral yields the empty answer", st == "ok" and v == [],
+                              {"key": kname, "numerals": lst}, [], repr(v), mechanism="unrecognised-numeral-in-list")
                 ctx.case(("badnumeral", kname, bad))
         ctx.sample({"to_chords('bVII7','Eb')": P.to_chords("bVII7", "Eb"), "chords.vii7('C')": chords.vii7("C")})
     elif kind == "suffix":
